@@ -185,6 +185,7 @@ type StdOpts struct {
 	ProviderStake             int64
 	Consumers                 int
 	Plan                      *planstypes.Plan
+	ExtraPlans                []planstypes.Plan // added by the same proposal (same block) as Plan
 	Validators                int
 }
 
@@ -212,7 +213,7 @@ func (w *World) StdFixture(o StdOpts) {
 	if o.Plan != nil {
 		plan = *o.Plan
 	}
-	w.Must("add plan", w.AddPlanGov(false, plan))
+	w.Must("add plan", w.AddPlanGov(false, append([]planstypes.Plan{plan}, o.ExtraPlans...)...))
 	for i := 0; i < o.Providers; i++ {
 		acc, _ := w.AddAccount(common.PROVIDER, i, 10000000)
 		for _, s := range o.Specs {
